@@ -28,59 +28,77 @@ def main():
             kvcache[n] = k
         return kvcache[n]
 
+    def snapshot(mp, shapes):
+        res = {}
+        res['numdofs'] = int(mp.numdofs)
+        res['idx'] = [[int(g) for g in mp.patch_to_global_idx(p)] for p in range(len(shapes))]
+        # internal consistency of the two redundant containers
+        spp_ok = True
+        for sd, members in enumerate(mp.shared_dofs):
+            for (p, i) in members:
+                if mp.shared_per_patch[p].get(i) != sd:
+                    spp_ok = False
+        for p, d in enumerate(mp.shared_per_patch):
+            for i, sd in d.items():
+                if not (0 <= sd < len(mp.shared_dofs)) or (p, i) not in mp.shared_dofs[sd]:
+                    spp_ok = False
+        res['containers_consistent'] = spp_ok
+        # the matrices
+        mats_ok = True
+        ptp_identity = []
+        for p in range(len(shapes)):
+            P = mp.patch_to_global(p)
+            Pd = P.toarray()
+            if P.shape != (mp.numdofs, int(np.prod(shapes[p]))):
+                mats_ok = False
+            if not np.all((Pd == 0) | (Pd == 1)) or not np.all(Pd.sum(axis=0) == 1):
+                mats_ok = False
+            rows = Pd.argmax(axis=0)
+            if [int(r) for r in rows] != res['idx'][p]:
+                mats_ok = False
+            G = mp.global_to_patch(p)
+            ptp_identity.append(bool(np.array_equal((G @ P).toarray(), np.eye(P.shape[1]))))
+            Pg = mp.patch_to_global(p, j_global=True)
+            ntot = int(sum(np.prod(s) for s in shapes))
+            if Pg.shape != (mp.numdofs, ntot):
+                mats_ok = False
+            else:
+                # j_global=True: the same unit entries, shifted to the patch's own column block
+                # (offset = number of local dofs of the patches before it, computed here independently)
+                ofs = int(sum(np.prod(s) for s in shapes[:p]))
+                exp = np.zeros((mp.numdofs, ntot))
+                exp[res['idx'][p], ofs + np.arange(Pd.shape[1])] = 1
+                if not np.array_equal(Pg.toarray(), exp):
+                    mats_ok = False
+                    res['jglobal_bad'] = p
+        res['mats_ok'] = mats_ok
+        res['ptp_identity'] = ptp_identity
+        return res
+
     out = []
     for case in payload['cases']:
-        shapes, joins = case['shapes'], case['joins']
+        shapes, joins = case['shapes'], case.get('joins', [])
         res = {}
         try:
             patches = [(tuple(kv(n) for n in shp), None) for shp in shapes]
             mp = assemble.Multipatch(patches, automatch=False)
+            if 'steps' in case:
+                # history with finalize() calls between the joins: a snapshot after EVERY finalize
+                snaps = res['snaps'] = []
+                for st in case['steps']:
+                    if st == 'F':
+                        mp.finalize()
+                        snaps.append(snapshot(mp, shapes))
+                    else:
+                        (p1, ax1, s1, p2, ax2, s2, flip) = st
+                        mp.join_boundaries(p1, (ax1, s1), p2, (ax2, s2), flip=tuple(flip) if flip is not None else None)
+                res['status'] = 'Ok'
+                out.append(res)
+                continue
             for (p1, ax1, s1, p2, ax2, s2, flip) in joins:
                 mp.join_boundaries(p1, (ax1, s1), p2, (ax2, s2), flip=tuple(flip) if flip is not None else None)
             mp.finalize()
-            res['numdofs'] = int(mp.numdofs)
-            res['idx'] = [[int(g) for g in mp.patch_to_global_idx(p)] for p in range(len(shapes))]
-            # internal consistency of the two redundant containers
-            spp_ok = True
-            for sd, members in enumerate(mp.shared_dofs):
-                for (p, i) in members:
-                    if mp.shared_per_patch[p].get(i) != sd:
-                        spp_ok = False
-            for p, d in enumerate(mp.shared_per_patch):
-                for i, sd in d.items():
-                    if not (0 <= sd < len(mp.shared_dofs)) or (p, i) not in mp.shared_dofs[sd]:
-                        spp_ok = False
-            res['containers_consistent'] = spp_ok
-            # the matrices
-            mats_ok = True
-            ptp_identity = []
-            for p in range(len(shapes)):
-                P = mp.patch_to_global(p)
-                Pd = P.toarray()
-                if P.shape != (mp.numdofs, int(np.prod(shapes[p]))):
-                    mats_ok = False
-                if not np.all((Pd == 0) | (Pd == 1)) or not np.all(Pd.sum(axis=0) == 1):
-                    mats_ok = False
-                rows = Pd.argmax(axis=0)
-                if [int(r) for r in rows] != res['idx'][p]:
-                    mats_ok = False
-                G = mp.global_to_patch(p)
-                ptp_identity.append(bool(np.array_equal((G @ P).toarray(), np.eye(P.shape[1]))))
-                Pg = mp.patch_to_global(p, j_global=True)
-                ntot = int(sum(np.prod(s) for s in shapes))
-                if Pg.shape != (mp.numdofs, ntot):
-                    mats_ok = False
-                else:
-                    # j_global=True: the same unit entries, shifted to the patch's own column block
-                    # (offset = number of local dofs of the patches before it, computed here independently)
-                    ofs = int(sum(np.prod(s) for s in shapes[:p]))
-                    exp = np.zeros((mp.numdofs, ntot))
-                    exp[res['idx'][p], ofs + np.arange(Pd.shape[1])] = 1
-                    if not np.array_equal(Pg.toarray(), exp):
-                        mats_ok = False
-                        res['jglobal_bad'] = p
-            res['mats_ok'] = mats_ok
-            res['ptp_identity'] = ptp_identity
+            res.update(snapshot(mp, shapes))
             res['status'] = 'Ok'
         except Exception as e:  # noqa
             res['status'] = errclass(e)
